@@ -124,7 +124,7 @@ def _present(vals, spec):
 
 def draw_pres(r, kind):
     if kind in ("rec", "rec2"):
-        k = wpick(r, [("plain", 3), ("swapped", 3), ("strided", 3), ("strided_swapped", 2), ("offset", 1)])
+        k = wpick(r, [("plain", 3), ("swapped", 3), ("strided", 3), ("strided_swapped", 2), ("offset", 1), ("fieldview", 1.5)])
     elif kind in ("s", "u"):
         k = wpick(r, [("plain", 3), ("strided", 3), ("offset", 1)] + ([("swapped", 2)] if kind == "u" else []))
     elif kind in ("i", "iu"):
